@@ -37,7 +37,9 @@ GEnq == /\ More /\ cap > 0 /\ blocked = <<>>
 GResume == /\ blocked # <<>> /\ Len(q) < cap /\ EnqResumed(Head(blocked), TRUE) /\ UNCHANGED <<hist, nposts>>
 GDeq == /\ More /\ cap > 0 /\ ~(blocked # <<>> /\ Len(q) < cap) /\ Deq(IF q = <<>> THEN "" ELSE Head(q), q # <<>>) /\ Log([op |-> "deq"]) /\ UNCHANGED nposts
 GQS == /\ More /\ cap > 0 /\ Len(hist) > 0 /\ hist[Len(hist)].op # "qstats" /\ Log([op |-> "qstats"]) /\ UNCHANGED <<vars, nposts>>
-GWC == More /\ WCreate /\ Log([op |-> "wcreate"]) /\ UNCHANGED nposts
+\* how the worker waits for its stop (polling should_stop, sleeping on its stop event with / without a time limit) is
+\* the worker's business: the life-cycle rules are the same
+GWC == More /\ WCreate /\ (\E k \in Pick({"poll", "sleep", "block"}) : Log([op |-> "wcreate", kind |-> k])) /\ UNCHANGED nposts
 GWS == More /\ wstate = "running" /\ WStop /\ Log([op |-> "wstop"]) /\ UNCHANGED nposts
 GWJ == /\ More /\ wstate \in {"running", "stopping"}
        /\ \E long \in Pick(IF wstate = "running" THEN {FALSE} ELSE {TRUE}) :
